@@ -72,3 +72,17 @@ Print Assumptions C09_source_constants.
 Theorem C09_nonvacuous : nonvacuous_witness.
 Proof. exact nonvacuous_proof. Qed.
 Print Assumptions C09_nonvacuous.
+
+(* ---- which selects are rendered with in-line items: the search() appearance (Model/Search.v) ---- *)
+Require Import PX.Model.Search PX.Proofs.Search.
+Theorem C09_search_recognised_anywhere : forall pre args post, forallb (fun c => negb (N.eqb c 10)) args = true ->
+  is_search (pre ++ SEARCH_LP ++ args ++ [41%N] ++ post) = true.
+Proof. exact search_recognised_anywhere. Qed.
+Print Assumptions C09_search_recognised_anywhere.
+Theorem C09_no_search_text_no_search : forall a, contains SEARCH_LP a = false -> is_search a = false.
+Proof. exact no_search_text_no_search. Qed.
+Print Assumptions C09_no_search_text_no_search.
+Theorem C09_search_pattern_pinned : PX.Gen.Choices.SEARCH_FUNCTION_PATTERN = [115;101;97;114;99;104;92;40;46;42;63;92;41]%N.
+Proof. exact search_pattern_pinned. Qed.
+Print Assumptions C09_search_pattern_pinned.
+
